@@ -5,7 +5,7 @@
   format's own encoding (`fmtVal`, defined independently from sign / exponent field / mantissa field).
   Scope: patterns that are normal float32 numbers after the down-scaling (every format-normal value).
 -/
-import USProofs.Properties.C13
+import USProofs.Properties.C14
 import Mathlib.Data.Rat.Defs
 import Mathlib.Algebra.Order.Field.Power
 import Mathlib.Algebra.Order.Field.Rat
@@ -181,3 +181,52 @@ theorem quant_value_is_format_value (E M e m : ℕ) (hE : 1 ≤ E) (hB : 2 ^ (E 
   ring
 
 end USProofs.C13
+
+namespace USProofs.C14
+
+open USModel USModel.F32 USProofs.C13
+
+/-- **Fractional position of the value.** For a normal pattern `q` of binade `e`, the fraction of
+    the way from the lower enclosing multiple of `2^k` to the upper one, measured on exact *values*,
+    is `(q mod 2^k) / 2^k` — the discarded bits read as a fraction. -/
+theorem frac_position_value (k e q : ℕ) (hk : k ≤ 23) (he : 1 ≤ e)
+    (hlo : e * 2 ^ 23 ≤ q) (hhi : q < (e + 1) * 2 ^ 23) :
+    (val q - val (q / 2 ^ k * 2 ^ k)) / (val ((q / 2 ^ k + 1) * 2 ^ k) - val (q / 2 ^ k * 2 ^ k))
+      = ((q % 2 ^ k : ℕ) : ℚ) / ((2 ^ k : ℕ) : ℚ) := by
+  have hP := pow_pos' k
+  obtain ⟨h1, h2⟩ := enclosing_in_binade k e q hk hlo hhi
+  have hdm := Nat.div_add_mod q (2 ^ k)
+  have hfl : q / 2 ^ k * 2 ^ k ≤ q := Nat.div_mul_le_self _ _
+  have hE : (e + 1) * 2 ^ 23 = e * 2 ^ 23 + 2 ^ 23 := by ring
+  -- offsets inside the binade
+  obtain ⟨a, rfl⟩ : ∃ a, q = e * 2 ^ 23 + a := ⟨q - e * 2 ^ 23, by omega⟩
+  obtain ⟨l, hl⟩ : ∃ l, (e * 2 ^ 23 + a) / 2 ^ k * 2 ^ k = e * 2 ^ 23 + l :=
+    ⟨(e * 2 ^ 23 + a) / 2 ^ k * 2 ^ k - e * 2 ^ 23, by omega⟩
+  have hup : ((e * 2 ^ 23 + a) / 2 ^ k + 1) * 2 ^ k = e * 2 ^ 23 + (l + 2 ^ k) := by
+    rw [Nat.add_mul, Nat.one_mul, hl]; ring
+  have ha : a ≤ 2 ^ 23 := by omega
+  have hl' : l ≤ 2 ^ 23 := by omega
+  have hu' : l + 2 ^ k ≤ 2 ^ 23 := by
+    have := h2; rw [hup] at this; omega
+  have hrem : (e * 2 ^ 23 + a) % 2 ^ k = a - l := by
+    have e1 : 2 ^ k * ((e * 2 ^ 23 + a) / 2 ^ k) = e * 2 ^ 23 + l := by rw [Nat.mul_comm]; exact hl
+    omega
+  have hla : l ≤ a := by
+    have := hfl; rw [hl] at this; omega
+  rw [hl, hup, val_sub_in_binade e l a he hl' ha, val_sub_in_binade e l (l + 2 ^ k) he hl' hu', hrem]
+  have hz : (2 : ℚ) ^ ((e : ℤ) - 150) ≠ 0 := by positivity
+  rw [mul_div_mul_right _ _ hz, Nat.cast_sub hla]
+  congr 1
+  push_cast
+  ring
+
+/-- **Exactly proportional probability, on values**: with all discarded bits used, the fraction of
+    the `2^k` equally likely draws that round a normal pattern up equals the fractional position of
+    its *value* between its two representable neighbours. -/
+theorem sr_prob_exact_value (k e q : ℕ) (hk : k ≤ 23) (he : 1 ≤ e)
+    (hlo : e * 2 ^ 23 ≤ q) (hhi : q < (e + 1) * 2 ^ 23) :
+    ((countUpCore k 0 q : ℕ) : ℚ) / ((2 ^ k : ℕ) : ℚ)
+      = (val q - val (q / 2 ^ k * 2 ^ k)) / (val ((q / 2 ^ k + 1) * 2 ^ k) - val (q / 2 ^ k * 2 ^ k)) := by
+  rw [frac_position_value k e q hk he hlo hhi, sr_prob_exact]
+
+end USProofs.C14
